@@ -1259,8 +1259,10 @@ class PhasedVcfWriter(VcfAugmenter):
                     )
                     self._set_phasing_tags(call, components[pos], phases[pos], haploid_component)
                 else:
-                    # Unphased
-                    call[self.tag] = None
+                    # Unphased. (For the string-valued HP tag, assign an explicit missing value:
+                    # None would be written as an empty string, and as a NUL byte if no sample
+                    # of the record has a value.)
+                    call[self.tag] = None if self.tag == "PS" else "."
             prev_pos = pos
         return genotype_changes
 
